@@ -312,6 +312,44 @@ func (w *skWalker) stmts(list []ast.Stmt) {
 	}
 }
 
+// indexLoopOver: the s of `for i := 0; i < len(s); i++` (s an identifier or a field path), else nil
+func indexLoopOver(x *ast.ForStmt) ast.Expr {
+	as, ok := x.Init.(*ast.AssignStmt)
+	if !ok || as.Tok != token.DEFINE || len(as.Lhs) != 1 || len(as.Rhs) != 1 {
+		return nil
+	}
+	i, ok := as.Lhs[0].(*ast.Ident)
+	if lit, ok2 := as.Rhs[0].(*ast.BasicLit); !ok || !ok2 || lit.Value != "0" {
+		return nil
+	}
+	inc, ok := x.Post.(*ast.IncDecStmt)
+	if !ok || inc.Tok != token.INC {
+		return nil
+	}
+	if id, ok := inc.X.(*ast.Ident); !ok || id.Name != i.Name {
+		return nil
+	}
+	cmp, ok := x.Cond.(*ast.BinaryExpr)
+	if !ok || cmp.Op != token.LSS {
+		return nil
+	}
+	if id, ok := cmp.X.(*ast.Ident); !ok || id.Name != i.Name {
+		return nil
+	}
+	call, ok := cmp.Y.(*ast.CallExpr)
+	if !ok || len(call.Args) != 1 {
+		return nil
+	}
+	if f, ok := call.Fun.(*ast.Ident); !ok || f.Name != "len" {
+		return nil
+	}
+	switch call.Args[0].(type) {
+	case *ast.Ident, *ast.SelectorExpr:
+		return call.Args[0]
+	}
+	return nil
+}
+
 func unparen(e ast.Expr) ast.Expr {
 	for {
 		p, ok := e.(*ast.ParenExpr)
@@ -469,6 +507,9 @@ func (w *skWalker) stmt(s ast.Stmt) {
 		c := ""
 		if x.Cond != nil {
 			c = w.nsrc(x.Cond)
+		}
+		if over := indexLoopOver(x); over != nil {
+			c = "range " + w.nsrc(over) // `for i := 0; i < len(s); i++` reads like `for … := range s`
 		}
 		w.emit("loopBegin", c)
 		if x.Cond != nil {
